@@ -3,6 +3,7 @@ package props
 import (
 	"fmt"
 	"go/ast"
+	"go/token"
 	"go/types"
 	"strings"
 
@@ -203,8 +204,135 @@ func C16(x *Ctx, r *core.Result) {
 	x.destinationRules(r, c)
 	d := r.Rule("R16d", "scratch buffers (ReadString's *buf, ValueReader.stringBuf / fieldNameBuf) reach an appending callee only re-sliced to length 0")
 	x.scratchRules(r, d)
+	e := r.Rule("R16e", "every string returned by an exported function is a constant or a copying conversion (string(bytes) / string(runes)) — never a view of the input or of a buffer; no unsafe.Pointer conversion is reachable from the API")
+	x.stringResultsCopied(r, e)
 	r.NotDecided = append(r.NotDecided, "\"exactly the bytes they would produce with an empty destination\" is R16c together with C06's content rules")
 	r.Explain = "who-may-write and who-may-keep analysis over the alias closure of every input parameter; destination typestate by linear forms on SSA"
 }
 
 func init() { Registry["C16"] = Prop{"other", C16} }
+
+// stringResultsCopied: R16e.
+func (x *Ctx) stringResultsCopied(r *core.Result, rs *core.RuleStat) {
+	w := x.W
+	var isCopy func(v ssa.Value, seen map[ssa.Value]bool) string
+	isCopy = func(v ssa.Value, seen map[ssa.Value]bool) string {
+		if seen[v] {
+			return ""
+		}
+		seen[v] = true
+		switch t := v.(type) {
+		case *ssa.Const:
+			return ""
+		case *ssa.Convert:
+			if isStringType(t.Type()) {
+				switch u := t.X.Type().Underlying().(type) {
+				case *types.Slice:
+					return "" // string([]byte) / string([]rune) copies
+				case *types.Basic:
+					if u.Info()&types.IsInteger != 0 {
+						return ""
+					}
+				}
+			}
+			return "a conversion that does not copy"
+		case *ssa.Phi:
+			for _, e := range t.Edges {
+				if m := isCopy(e, seen); m != "" {
+					return m
+				}
+			}
+			return ""
+		case *ssa.Extract:
+			if c, ok := t.Tuple.(*ssa.Call); ok {
+				if callee := c.Call.StaticCallee(); callee != nil && w.InLib(callee) {
+					return x.stringResultOf(callee, t.Index, isCopy, seen)
+				}
+			}
+			return "the result of a call outside the library"
+		case *ssa.Call:
+			if callee := t.Call.StaticCallee(); callee != nil {
+				if w.InLib(callee) {
+					return x.stringResultOf(callee, 0, isCopy, seen)
+				}
+				if callee.Pkg != nil && callee.Pkg.Pkg.Path() == "fmt" {
+					return ""
+				}
+			}
+			return "the result of a call outside the library"
+		case *ssa.BinOp:
+			return "" // string concatenation allocates
+		case *ssa.Lookup, *ssa.Index:
+			return "" // element of a package-level table of string constants
+		case *ssa.UnOp:
+			if t.Op == token.MUL {
+				if _, ok := t.X.(*ssa.IndexAddr); ok {
+					return ""
+				}
+				if fa, ok := t.X.(*ssa.FieldAddr); ok {
+					_ = fa
+					return "a string loaded from a field"
+				}
+				return "a string loaded through a pointer (possibly a view of a byte buffer)"
+			}
+		}
+		return fmt.Sprintf("%T", v)
+	}
+	for _, fn := range w.APIRoots() {
+		res := fn.Signature.Results()
+		for i := 0; i < res.Len(); i++ {
+			if !isStringType(res.At(i).Type()) {
+				continue
+			}
+			rs.Instances++
+			ok := true
+			for _, b := range fn.Blocks {
+				ret, isRet := b.Instrs[len(b.Instrs)-1].(*ssa.Return)
+				if !isRet {
+					continue
+				}
+				if m := isCopy(ret.Results[i], map[ssa.Value]bool{}); m != "" {
+					r.Fail(rs, fnKey(fn)+":string-result", w.Pos(ret.Pos()), "a returned string is "+m+": it may share memory with the input or a buffer and change later")
+					ok = false
+				}
+			}
+			if ok {
+				rs.OK(1)
+				rs.Sample(fnKey(fn) + ": returned strings are constants or copying conversions")
+			}
+		}
+	}
+	// unsafe anywhere in the API-reachable library code
+	reach := w.Reachable(w.APIRoots(), func(e *callgraph.Edge) bool { return w.InLib(e.Caller.Func) })
+	for fn := range reach {
+		if !w.InLib(fn) {
+			continue
+		}
+		for _, b := range fn.Blocks {
+			for _, ins := range b.Instrs {
+				if cv, ok := ins.(*ssa.Convert); ok && (isUnsafePtr(cv.Type()) || isUnsafePtr(cv.X.Type())) {
+					r.Fail(rs, fnKey(fn)+":unsafe", w.Pos(cv.Pos()), "unsafe.Pointer conversion: results may alias buffers")
+				}
+			}
+		}
+	}
+	if rs.Instances < 3 {
+		r.Undecided(rs, "floor", "-", "fewer than 3 exported functions return strings: anchor missing")
+	}
+}
+
+func (x *Ctx) stringResultOf(callee *ssa.Function, idx int, isCopy func(ssa.Value, map[ssa.Value]bool) string, seen map[ssa.Value]bool) string {
+	for _, b := range callee.Blocks {
+		if ret, ok := b.Instrs[len(b.Instrs)-1].(*ssa.Return); ok && idx < len(ret.Results) {
+			if m := isCopy(ret.Results[idx], seen); m != "" {
+				return m
+			}
+		}
+	}
+	return ""
+}
+
+func isStringType(t types.Type) bool {
+	b, ok := t.Underlying().(*types.Basic)
+	return ok && b.Kind() == types.String
+}
